@@ -5,6 +5,7 @@ package main
 // reference interpreter (ref.go).
 
 import (
+	"context"
 	"errors"
 	"fmt"
 	"strings"
@@ -18,18 +19,19 @@ func init() {
 }
 
 var (
-	pvPtr   = &payloadT{"prep"}
-	pvMap   = map[string]int{"k": 1}
-	evPtr   = &payloadT{"exec"}
-	evMap   = map[string]any{"r": []int{1}}
-	fvPtr   = &payloadT{"fallback"}
-	junkPtr = &payloadT{"junk-from-failed-attempt"}
-	pvPtr2  = &payloadT{"prep-second-run"}
-	evPtr2  = &payloadT{"exec-second-run"}
-	errPrep = errors.New("prep-failed")
-	errPost = errors.New("post-failed")
-	errFb   = errors.New("fallback-failed")
-	errExec = func() []error {
+	pvPtr    = &payloadT{"prep"}
+	pvMap    = map[string]int{"k": 1}
+	evPtr    = &payloadT{"exec"}
+	evMap    = map[string]any{"r": []int{1}}
+	fvPtr    = &payloadT{"fallback"}
+	junkPtr  = &payloadT{"junk-from-failed-attempt"}
+	pvPtr2   = &payloadT{"prep-second-run"}
+	evPtr2   = &payloadT{"exec-second-run"}
+	evResult = flyt.NewResult(7) // a payload that is itself a (non-error) Result value
+	errPrep  = errors.New("prep-failed")
+	errPost  = errors.New("post-failed")
+	errFb    = errors.New("fallback-failed")
+	errExec  = func() []error {
 		var l []error
 		for i := 0; i < 12; i++ {
 			l = append(l, fmt.Errorf("exec-failed-attempt-%d", i))
@@ -63,7 +65,7 @@ func fullMenu(prepVals []any) func(h *H, c call) []answer {
 			return append(m, answer{err: errPrep})
 		case pExec:
 			// a failing attempt also returns a (junk) value: it must never reach a later phase
-			return []answer{{val: evPtr}, {val: junkPtr, err: errExec[c.attempt]}, {val: nil}, {val: evMap}}
+			return []answer{{val: evPtr}, {val: junkPtr, err: errExec[c.attempt]}, {val: nil}, {val: evMap}, {val: evResult}}
 		case pFallback:
 			return []answer{{val: fvPtr}, {err: errFb}, {val: nil}}
 		default:
@@ -104,6 +106,14 @@ func lifecycleScenario(name string, n *spec, place int, menu func(h *H, c call) 
 }
 
 func lifecycleScenarioRuns(name string, n *spec, place int, menu func(h *H, c call) []answer, runs int) Scenario {
+	return lifecycleScenarioOpt(name, n, place, menu, runs, false)
+}
+
+// withCancel: during the FIRST run the context may be cancelled from inside any
+// callback (lazy choice).  C01 then still demands: once the exec phase has
+// produced a result, post runs; the run returns exactly one of action / error.
+// Later runs get a fresh context.
+func lifecycleScenarioOpt(name string, n *spec, place int, menu func(h *H, c call) []answer, runs int, withCancel bool) Scenario {
 	var h *H
 	root := n
 	var first *spec
@@ -119,12 +129,36 @@ func lifecycleScenarioRuns(name string, n *spec, place int, menu func(h *H, c ca
 		h = newH(root)
 		h.menu = menu
 		node := h.build(root)
+		cancelled := false
+		if withCancel {
+			cctx, _ := core.WithCancel(ctxBackground())
+			h.ctx = cctx
+			h.onCall = func(hh *H, c call) {
+				if !cancelled && hh.runNo == 0 && core.Choose(2) == 1 {
+					cancelled = true
+					core.Logf("cancel inside %s", c)
+					cctx.CancelInline(context.Canceled)
+				}
+			}
+		}
 		a, err := flyt.Run(h.ctx, node, h.store)
 		core.Logf("Run returned (%q, %v)", a, err)
-		h.finish(a, err)
+		if cancelled {
+			// a cancelled run may stop before a NEW ATTEMPT or a FURTHER NODE; it may not drop
+			// the post phase of a result the exec phase has already produced
+			if (a != "") == (err != nil) {
+				core.Problem("run returned (%q, %v): want exactly one of action / error", a, err)
+			}
+			if s, _, done := simulate(h.root, h.store, h.answers); !done && s.next.ph == pPost {
+				core.Problem("the exec phase produced a result (callbacks: %s) but post was not invoked after the cancellation; run returned (%q, %v)", h.traceString(), a, err)
+			}
+		} else {
+			h.finish(a, err)
+		}
 		for r := 1; r < runs; r++ {
 			// the SAME node objects are run again: nothing may carry over
 			h.nextRun()
+			h.ctx = ctxBackground()
 			a, err := flyt.Run(h.ctx, node, h.store)
 			core.Logf("run %d returned (%q, %v)", r+1, a, err)
 			h.finish(a, err)
@@ -165,6 +199,9 @@ func genC01(tier string) []Scenario {
 					out = append(out, lifecycleScenario(name, sp, place, fullMenu(pv)))
 					if n <= 2 && place != placeOnlyInFlow {
 						out = append(out, lifecycleScenarioRuns(name+" runs=2(same node object)", sp, place, fullMenu(pv[:2]), 2))
+					}
+					if n <= 3 && place == placeDirect {
+						out = append(out, lifecycleScenarioOpt(name+" cancel-inside-any-callback runs=2", sp, place, fullMenu(pv[:1]), 2, true))
 					}
 				}
 			}
